@@ -26,3 +26,5 @@ def run(ctx):
                                 "non-trivial = rollbacks whose restored state digest was checked against the digest recorded when "
                                 "that history position was first reached (S oracle) and against the Lean re-execution (K)")
     ctx.coverage["allocator_level"] = {k: v for k, v in alloc_cov.items() if k in ("evaluations", "distinct_nontrivial", "rule", "input_distribution", "correspondence")}
+    # LPs without a state pointer whose only rollbackable state is the library generator (first draw in a speculative event)
+    runlib.stateless_matrix(ctx, 16, 400, salt=5)
